@@ -153,6 +153,7 @@ structure EP where
   park : Option Park := none
   closing : Option ExitRes := none  -- winding down, waiting for the peer to end the connection
   srcEnded : Bool := false      -- the source has yielded `None` or an error
+  retryq : List Nat := []       -- rejected open requests whose futures have not run again yet
   muxAlive : Bool := true       -- the `Multiplexor` handle exists
   dead : Bool := false          -- the task has finished
 deriving Repr
@@ -242,14 +243,15 @@ def openRound (e : EP) (r : OpenReq) : EP × List Ev :=
       else
         (e.enqFrame (.connect fid e.opts.rwnd r.port r.host), [])
 
-/-- The open future is told "rejected" (`stream_rx` yields `None`): next round. While the task is
-    tearing down (`final = true`) the answer is `Closed` (lib.rs: the request cannot be retried). -/
+/-- The open future is told "rejected" (`stream_rx` yields `None`). The future is a separate task:
+    it runs its next round (`runRetries`) only after the connection task has gone idle, so the
+    request is queued here. While the task is tearing down (`final = true`) the answer is `Closed`. -/
 def openRejected (e : EP) (req : Nat) (final : Bool) : EP × List Ev :=
   match e.opens.find? (·.req = req) with
   | none => (e, [])
-  | some r =>
+  | some _ =>
     if final then ({ e with opens := e.opens.filter (·.req ≠ req) }, [.openDone req .closed])
-    else openRound e r
+    else ({ e with retryq := e.retryq ++ [req] }, [])
 
 /-- `close_flow_local` on an already removed slot. -/
 def closeLocal (e : EP) (s : Slot) (fid : Nat) (inhibitRst final : Bool) : EP × List Ev :=
@@ -375,8 +377,10 @@ def drainFlows (e : EP) : List (Nat × Slot) → EP × List Ev
 def windDownFinish (e : EP) (res : ExitRes) : EP × List Ev :=
   let (e, evs7) := drainFlows { e with flows := [] } e.flows
   let e := { e with droppedq := [], dead := true, closing := none, park := none }
-  let leftover := e.opens.map (fun r => Ev.openDone r.req .closed)
-  ({ e with opens := [] }, evs7 ++ leftover ++ [.exit res])
+  -- open requests that were never answered see `Closed`; those already told "rejected" run their
+  -- next round afterwards (`runRetries`), where they fail with FlowIdRejected or Closed
+  let leftover := (e.opens.filter (fun r => !e.retryq.contains r.req)).map (fun r => Ev.openDone r.req .closed)
+  ({ e with opens := e.opens.filter (fun r => e.retryq.contains r.req) }, evs7 ++ leftover ++ [.exit res])
 
 /-- Messages read from the source after the sink was closed: processed with binds ignored and
     processing errors ignored, until the source errs or ends (`some rest` = it did, wind-down
@@ -391,22 +395,27 @@ def windDownInbox (e : EP) : List WsIn → EP × List Ev × Bool
     let (e, evs', ended) := windDownInbox e rest
     (e, evs ++ evs', ended)
 
+/-- `disallow_write` on every established flow (task.rs:301-305). -/
+def disallowAll (e : EP) : List (Nat × Slot) → EP
+  | [] => e
+  | (_, .established i) :: rest => disallowAll (e.modObj i Obj.disallowWrite) rest
+  | _ :: rest => disallowAll e rest
+
 /-- Wind-down (task.rs `wind_down`). `drain` = the Multiplexor was dropped (queued messages are
     still sent). After an error (`res ≠ ok`) the peer is not waited for: what the source has
     already delivered is processed and the task finishes. Otherwise the task keeps reading until the
     peer ends the connection (the close handshake); see `settleLoop` for that phase. -/
 def windDown (e : EP) (drain : Bool) (res : ExitRes) : EP × List Ev :=
+  let srcEnded := e.srcEnded   -- the source yields nothing more (`poll_next` is `None` at once)
   -- (1) no more writes on any established flow (task.rs:301-305)
-  let e := e.flows.foldl (fun e p => match p.2 with
-    | .established i => e.modObj i Obj.disallowWrite
-    | _ => e) e
+  let e := disallowAll e e.flows
   -- (3) close the outbound queue, (4) drain it if asked, (5) close the sink
   let flushed : List Ev := if drain then e.outq.map .wire else []
   let e := { e with outClosed := true, outq := [], park := none }
   -- (6) what the source still has / will deliver
   let (e, evs6, ended) := windDownInbox e e.inbox
   let e := { e with inbox := [] }
-  if ended || e.srcEnded || res != .ok then
+  if ended || srcEnded || res != .ok then
     let (e, evs) := windDownFinish e res
     (e, flushed ++ [.wireClose] ++ evs6 ++ evs)
   else
@@ -421,7 +430,10 @@ def unpark (e : EP) : EP :=
   | some (.accept i) =>
     if e.acceptq.length < e.opts.acceptCap then { e with acceptq := e.acceptq ++ [i], park := none } else e
   | some (.bind b) =>
-    if e.bindq.length < e.opts.bindCap then { e with bindq := e.bindq ++ [b], park := none } else e
+    if !e.muxAlive then
+      -- the receiver is gone: the send fails, the `BindRequest` is dropped and rejects itself
+      ({ e with park := none }).enqFrame (.reset b.fid)
+    else if e.bindq.length < e.opts.bindCap then { e with bindq := e.bindq ++ [b], park := none } else e
 
 /-- Receive loop, then notification loop, then send loop (`select_biased`, task.rs:139-156), until
     nothing is left to do. `fuel` bounds the recursion; every iteration consumes an inbox item or a
@@ -430,6 +442,12 @@ def settleLoop : Nat → EP → List Ev → EP × List Ev
   | 0, e, acc => (e, acc)
   | fuel + 1, e, acc =>
     if e.dead then (e, acc) else
+    if (match e.park with | some (.accept _) => !e.muxAlive | _ => false) then
+      -- parked on the accept queue and the Multiplexor is dropped: the hand-over fails, the receive
+      -- loop ends with `SendStreamToClient` (it is polled before the notification loop)
+      let (e, evs) := windDown { e with park := none } false .sendStream
+      (e, acc ++ evs)
+    else
     if let some res := e.closing then
       -- close handshake: keep reading until the source ends
       let (e', evs, ended) := windDownInbox e e.inbox
@@ -459,11 +477,35 @@ def settleLoop : Nat → EP → List Ev → EP × List Ev
         settleLoop fuel e (acc ++ evs)
       | [] => (e, acc)
 
-/-- After any stimulus: run the task, then hand the outbound queue to the sink in order. -/
+/-- Insert into a list sorted ascending (requests are numbered in the order their futures were
+    spawned, which is the order the executor polls them in). -/
+def insertSorted (x : Nat) : List Nat → List Nat
+  | [] => [x]
+  | y :: ys => if x ≤ y then x :: y :: ys else y :: insertSorted x ys
+
+def sortNat (l : List Nat) : List Nat := l.foldr insertSorted []
+
+/-- The rejected open futures run their next round, in spawn order. -/
+def runRetries (e : EP) : List Nat → EP × List Ev
+  | [] => (e, [])
+  | req :: rest =>
+    match e.opens.find? (·.req = req) with
+    | none => runRetries e rest
+    | some r =>
+      let (e, evs) := openRound e r
+      let (e, evs') := runRetries e rest
+      (e, evs ++ evs')
+
+/-- After any stimulus: run the task to quiescence and hand the outbound queue to the sink; then the
+    open futures that were rejected run again, and the task sends what they queued. -/
 def settle (e : EP) : EP × List Ev :=
   let (e, evs) := settleLoop (e.inbox.length + e.droppedq.length + 2) e []
-  if e.dead then (e, evs)
-  else ({ e with outq := [] }, evs ++ e.outq.map .wire)
+  let wires1 := if e.dead then [] else e.outq.map Ev.wire
+  let e := if e.dead then e else { e with outq := [] }
+  let (e, evs2) := runRetries { e with retryq := [] } (sortNat e.retryq)
+  let wires2 := if e.dead then [] else e.outq.map Ev.wire
+  let e := if e.dead then e else { e with outq := [] }
+  (e, evs ++ wires1 ++ evs2 ++ wires2)
 
 /-! ### Application calls -/
 
@@ -500,9 +542,9 @@ def appWrite (e : EP) (h : Nat) (d : Bytes) : EP × Res :=
 
 /-- `increment_psh_recvd_since` (stream.rs:130-147). -/
 def ackStep (e : EP) (i : Nat) (o : Obj) : EP :=
-  let n := o.recvdSince + 1
-  if n ≥ o.threshold then (e.modObj i (fun o => { o with recvdSince := 0 })).enqFrame (.acknowledge o.fid n)
-  else e.modObj i (fun o => { o with recvdSince := n })
+  if o.recvdSince + 1 ≥ o.threshold then
+    (e.modObj i (fun x => { x with recvdSince := 0 })).enqFrame (.acknowledge o.fid (o.recvdSince + 1))
+  else e.modObj i (fun x => { x with recvdSince := o.recvdSince + 1 })
 
 /-- `poll_fill_buf` (stream.rs:84-107, 322-336): make `buf` non-empty if possible. Empty frames are
     counted for acknowledgement and skipped. `fuel` = number of queued frames. -/
